@@ -90,7 +90,7 @@ namespace awkward {
     for (int64_t i = ((int64_t)inner_shape_.size()) - 1;  i >= 0;  i--) {
       out = std::make_shared<RegularType>(
                 util::Parameters(),
-                util::gettypestr(parameters_, typestrs),
+                std::string(),
                 out,
                 inner_shape_[(size_t)i]);
     }
